@@ -220,6 +220,9 @@ var extraSources = []string{
 	"{% import 'lib' as l %}" + rep("{{ l.m(1) }}", 400),
 	"{% block b %}1{% endblock %}{% block c %}{{ block('b') }}{% endblock %}",
 	"{{ x|json_encode }}{{ y|length }}{{ z is empty ? 'e' : 'n' }}",
+	" \n\t lead {{ x.s }} trail \t\n ",
+	" \n ",
+	"\n{% if y %}Y{% endif %}\n",
 	"{% if %}",
 	"{{ x",
 	"{% for i in x %}",
@@ -463,6 +466,7 @@ func runRD(t *vlib.T) {
 	for _, c := range corpus {
 		add(c)
 		add(strings.ReplaceAll(c, " ", ""))
+		add(" \n" + c + "\n ") // white space at both ends is part of the source
 	}
 	nOrig := len(srcs)
 	for _, c := range corpus {
